@@ -100,6 +100,7 @@ class Src:
         root = os.path.join(self.repo, self.pkg)
         if not os.path.isdir(root):
             raise AnalysisError(f"package directory {root} not found")
+        parsed = []
         for dp, dn, fn in os.walk(root):
             dn[:] = sorted(d for d in dn if d not in self.EXCLUDE_DIRS and d != "__pycache__")
             for f in sorted(fn):
@@ -114,19 +115,24 @@ class Src:
                         mod = ast.parse(txt, filename=p)
                 except (SyntaxError, UnicodeDecodeError) as e:
                     raise AnalysisError(f"cannot parse {rel}: {e}")
-                if self._alpha_db:
-                    from . import alpha, normalform
-                    normalform.substitute_reference(rel, mod, self._alpha_db, self.nf_substituted)
-                    alpha.normalise_module(rel, mod, self._alpha_db, self.alpha_renamed)
-                if self.INLINE_TEMPS:
-                    for fn_ in [n for n in ast.walk(mod) if isinstance(n, (ast.FunctionDef, ast.AsyncFunctionDef))]:
-                        try:
-                            fn_.body = inline_adjacent_temps(fn_).body
-                        except RecursionError:
-                            pass
-                self.modules[rel] = mod
-                self.text[rel] = txt
-                self._index(rel, mod)
+                parsed.append((rel, mod, txt))
+        sigs = None
+        if self._alpha_db:
+            from . import alpha, normalform
+            sigs = normalform.collect_signatures({rel: mod for rel, mod, _ in parsed})
+        for rel, mod, txt in parsed:
+            if self._alpha_db:
+                normalform.substitute_reference(rel, mod, self._alpha_db, self.nf_substituted, sigs)
+                alpha.normalise_module(rel, mod, self._alpha_db, self.alpha_renamed)
+            if self.INLINE_TEMPS:
+                for fn_ in [n for n in ast.walk(mod) if isinstance(n, (ast.FunctionDef, ast.AsyncFunctionDef))]:
+                    try:
+                        fn_.body = inline_adjacent_temps(fn_).body
+                    except RecursionError:
+                        pass
+            self.modules[rel] = mod
+            self.text[rel] = txt
+            self._index(rel, mod)
 
     def _index(self, rel, mod):
         imps = {}
